@@ -24,15 +24,17 @@
 EXTENDS Naturals, FiniteSets, TLC, Json
 CONSTANTS Conns, MaxCalls, MaxWrites, ResetCtx
 
-Classes == {"plain", "cte_write", "multi", "comment", "pragma", "pragma_fn", "attach", "vacuum",
+Classes == {"plain", "cte_write", "multi", "multi_quoted", "comment", "pragma", "pragma_fn", "attach", "vacuum",
             "ddl", "dml", "huge", "huge_header", "endless", "malformed"}
 
 (* what the text would do on an unguarded read-write connection *)
 Intent(c) == CASE c \in {"plain", "huge", "huge_header", "endless", "malformed"} -> "read"
-               [] c \in {"cte_write", "multi", "comment", "ddl", "dml"}        -> "write"
+               [] c \in {"cte_write", "multi", "multi_quoted", "comment", "ddl", "dml"} -> "write"
                [] c \in {"attach", "vacuum"}                                   -> "newfile"
                [] c \in {"pragma", "pragma_fn"}                                -> "config"
 
+(* "multi_quoted": several statements whose first ';' (or first quotes) sit inside a string literal, a quoted
+   identifier or a comment of a leading SELECT, so that a separator scan that reasons about quotes can be fooled *)
 (* is the text one SELECT/WITH statement (so that no classifier that only looks at the
    shape of the text can tell it from a read)? *)
 LooksReadOnly(c) == c \in {"plain", "cte_write", "pragma_fn", "huge", "huge_header", "endless"}
